@@ -396,7 +396,10 @@ def _conc_check(what, dx, dy, pad):
             return None
         if what == 'profile':
             rad = np.array([0, 1, 2, 3.5, 5.0])
-            for (x, y) in [(10.3, 9.2), (38.4, 27.3), (33.1, 11.4)]:
+            # (the last three circles reach into the outer half-pixel band of
+            # the left / bottom edge: still inside the original frame)
+            for (x, y) in [(10.3, 9.2), (38.4, 27.3), (33.1, 11.4),
+                           (4.7, 12.3), (15.2, 4.6), (4.8, 4.7)]:
                 r1 = RadialProfile(img, (x, y), rad)
                 r2 = RadialProfile(C, (x + dx, y + dy), rad)
                 if not np.allclose(r1.profile, r2.profile, rtol=1e-9):
